@@ -135,7 +135,8 @@ class C14(Prop):
             return impl
         w = line.split()
         summary = impl.split(" | ", 1)[1]
-        r = LEAN.ask("outlog %s %s %s" % (w[1], w[2], summary))
+        # the ops of the line go along: which streams the peer stopped / which calls were abandoned is the line's doing
+        r = LEAN.ask("outlog %s %s %s @@ %s" % (w[1], w[2], " ".join(w[3:]), summary))
         return r.split(" ## ")[0].strip()
 
     # ------------------------------------------------------------- probes
